@@ -2020,3 +2020,17 @@ fn partial_then_next(consumed: usize) {
     kani::assert(matches!(t.next_block(), Ok(false)), "c10.partial.end_of_tape");
     kani::cover!(x == 0x5A, "following block delivered");
 }
+
+// ---- lead helpers for the controller-level tape-time harness ---------------------------------------
+
+/// A playing tape in the middle of a long pulse (pilot, `delay` T-states left).
+pub(crate) fn playing_tape_with_delay(delay: usize) -> Tap<crate::host::BufferCursor<crate::verif_hooks::VBuf>> {
+    let mut t = stopped_tape_with_level(false);
+    t.state = TapeState::Pilot { pulses_left: 100 };
+    t.delay = delay;
+    t
+}
+
+pub(crate) fn delay_left(t: &Tap<crate::host::BufferCursor<crate::verif_hooks::VBuf>>) -> usize {
+    t.delay
+}
